@@ -89,6 +89,19 @@ func GenPoint(r *simrt.RNG) PointT {
 	return p
 }
 
+// Theme is a plan-level pattern name shared by the scripts generated for one plan
+// (set by the generator before it builds the plan's scripts; "" = none).
+var Theme string
+
+// SetTheme draws the plan-level names from the plan's generator.
+func SetTheme(r *simrt.RNG) {
+	Theme = fmt.Sprintf("pt%d", r.Intn(1000000))
+	collide = r.Intn(3) == 0
+}
+
+// collide makes the colliding-pattern recipe much more likely in this plan.
+var collide bool
+
 type recipe func(r *simrt.RNG, id int) string
 
 var recipes = []recipe{
@@ -119,7 +132,12 @@ if false {
 	// the same pattern NAME means different things in different scripts, defined in an
 	// outer frame and used in a nested block (a compiled-pattern cache keyed by text would mix them up)
 	func(r *simrt.RNG, id int) string {
-		name := []string{"tok", "WORD", "INT", "sep"}[r.Intn(4)]
+		// mostly the plan's own name (so that a process-wide cache is cold for this text and the
+		// collision happens inside one plan), sometimes a well-known global name
+		name := Theme
+		if name == "" || r.Intn(4) == 0 {
+			name = []string{"tok", "WORD", "INT", "sep"}[r.Intn(4)]
+		}
 		def := []string{"[a-z]+", "[a-z0-9]+", "\\\\d+", "[a-z]{2}", "hello"}[r.Intn(5)]
 		decl := fmt.Sprintf("add_pattern(%q, \"%s\")\n", name, def)
 		if r.Intn(4) == 0 {
@@ -208,7 +226,11 @@ func GenScript(r *simrt.RNG, id int) string {
 	n := 1 + r.Intn(3)
 	var b strings.Builder
 	for i := 0; i < n; i++ {
-		b.WriteString(recipes[r.Intn(len(recipes))](r, id*10+i))
+		k := r.Intn(len(recipes))
+		if collide && r.Intn(3) == 0 {
+			k = 2 // the colliding-pattern recipe
+		}
+		b.WriteString(recipes[k](r, id*10+i))
 	}
 	return b.String()
 }
